@@ -54,6 +54,7 @@ class Unit:
         self.driver = None      # text of an explicit-instantiation driver TU
         self.path = None
         self.not_covered = []
+        self.globals = []
 
 
 def _opts(words):
@@ -126,6 +127,8 @@ def parse(path):
             elif d == 'lib':
                 k, v = ln[1:].split(None, 1)[1].split(' = ')
                 u.lib[k.strip()] = v.strip()
+            elif d == 'global':
+                u.globals.append(words[1])
             elif d == 'opaque':
                 u.opaque.append(words[1])
             elif d == 'flags':
